@@ -104,9 +104,17 @@ def monitor(rp, plans, bus, uids, rng):
     bad = []
     n = len(bus.updates)
     orders = [None] + [rng.sample(range(n), n) for _ in range(2)]
-    for order in orders:
-        view, errs = pipelib.client_view(rp, bus, uids, order)
+    pilots = {u: 'pilot.%04d' % p.get('pilot', 0) for p, u in zip(plans, uids)}
+    for oi, order in enumerate(orders + [None]):
+        # last round: the tasks are bound to their pilots; another pilot of the same manager (none of these tasks runs
+        # there) ends somewhere in between, and the tasks' own pilots end after every task has reached its final state
+        ends = None
+        if oi == len(orders):
+            ends = [(rng.randint(0, n), 'pilot.0003', rng.choice(['FAILED', 'CANCELED', 'DONE']))] + \
+                   [(n, 'pilot.%04d' % q, rng.choice(['FAILED', 'CANCELED', 'DONE'])) for q in (0, 1, 2)]
+        view, errs = pipelib.client_view(rp, bus, uids, order, pilots=pilots, ends=ends)
         tag = 'emission-order' if order is None else 'shuffled'
+        if ends: tag = 'emission-order, pilot ends delivered: %s' % ends
         if errs:
             bad.append(('client:update-raised', '%s (%s)' % (errs[0], tag)))
         for p, u in zip(plans, uids):
